@@ -597,7 +597,8 @@ func (t *Transition) emitFinalEvents() Result {
 			t.latestHandlerToState = s
 		} else {
 			handler = s + SuffixEnd
-			t.latestHandlerToState = ""
+			// memorize for the panic recovery
+			t.latestHandlerToState = s
 		}
 
 		ret, handlerCalled := t.Machine.handle(handler, t.Mutation.Args,
